@@ -306,6 +306,8 @@ def enumerate_sites(body):
                 if pat.search(name):
                     if kind == "overflow-sum" and any(a in ("f64", "f32") for a in t["f"]["args"]):
                         break   # float sums do not panic
+                    if kind == "length-arg" and re.search(r"::drain$", name) and any("RangeFull" in x for x in t["aty"]):
+                        break   # drain(..) over the full range cannot be out of bounds
                     short = strip_generics(name).rsplit("::", 2)
                     out.append(Site(body, bi, kind, "::".join(short[-2:]) if len(short) > 1 else short[-1], t))
                     hit = True
